@@ -75,6 +75,10 @@ static void spellings_dur(int64_t secs)
 	if (se == 0 && mi == 0) { sprintf(b, "P%lldDT%lldH", d, h); dur_parse(b); sprintf(b, "PT%lldH", s / 3600); dur_parse(b); }
 	if (s % 86400 == 0) { sprintf(b, "P%lldD", d); dur_parse(b); sprintf(b, "+P%lldD", d); dur_parse(b); if (d) { sprintf(b, "-P%lldD", d); dur_parse(b); } }
 	if (s % 604800 == 0) { sprintf(b, "P%lldW", d / 7); dur_parse(b); sprintf(b, "+P%lldW", d / 7); dur_parse(b); }
+	/* weeks combined with days and/or a time part (the code reads [nW][nD][T..] as the sum) */
+	if (d >= 7 && s % 86400 == 0 && d % 7) { sprintf(b, "P%lldW%lldD", d / 7, d % 7); dur_parse(b); sprintf(b, "+P%lldW%lldD", d / 7, d % 7); dur_parse(b); }
+	if (d >= 7) { sprintf(b, "P%lldW%lldDT%lldH%lldM%lldS", d / 7, d % 7, h, mi, se); dur_parse(b); }
+	if (d >= 7 && d % 7 == 0 && s % 86400) { sprintf(b, "P%lldWT%lldH%lldM%lldS", d / 7, h, mi, se); dur_parse(b); }
 	if (h == 0 && d) { sprintf(b, "P%lldDT%lldM%lldS", d, mi, se); dur_parse(b); }
 	if (mi == 0) { sprintf(b, "P%lldDT%lldH%lldS", d, h, se); dur_parse(b); }
 }
